@@ -175,7 +175,11 @@ def _resolve_concat(conc: Concat) -> Concat:
         if _flat_concatable(conc.parts[idx]):
             continue
         # Hit our first "compound" entry. Split the list here.
-        first = conc.parts[:idx]
+        # (The leading entries are resolved too: strided and reversed signal-slices become their bits.)
+        first = ()
+        for part in conc.parts[:idx]:
+            resolved = _resolve_sliceable(part)
+            first += resolved.parts if isinstance(resolved, Concat) else (resolved,)
         rest = _resolve_concat(Concat(*conc.parts[idx:]))
         return Concat(*(first + rest.parts))
 
